@@ -509,6 +509,9 @@ VALIDATION_TREES = [
     ("question and group with one name as siblings", ("data", [("g", "g1", [("q", "x"), ("g", "x", [("q", "y")])])]), True),
     ("two sections with one name under different parents", ("data", [("g", "a", [("g", "dup", [("q", "p")])]), ("g", "b", [("g", "dup", [("q", "p2")])])]), True),
     ("section named like the form", ("data", [("g", "data", [("q", "p")])]), True),
+    ("two sections with one mixed-case name under different parents", ("data", [("g", "a", [("g", "innerGroup", [("q", "p")])]), ("r", "b", [("g", "innerGroup", [("q", "p2")])])]), True),
+    ("two repeats named `Details` under different parents", ("data", [("g", "a", [("r", "Details", [("q", "p")])]), ("g", "b", [("r", "Details", [("q", "p2")])])]), True),
+    ("section named like a mixed-case form", ("Census", [("g", "g1", [("g", "Census", [("q", "p")])])]), True),
     ("duplicate children in the generated meta group (two audit rows)", ("data", [("q", "a"), ("g", "meta", [("q", "instanceID"), ("q", "audit"), ("q", "audit")], {"control": {"bodyless": True}})]), True),
     ("invalid name inside a bodyless group", ("data", [("g", "meta", [("q", "1x")], {"control": {"bodyless": True}})]), True),
     ("duplicate children in a group with an appearance", ("data", [("g", "g1", [("q", "a"), ("q", "a")], {"control": {"appearance": "field-list"}})]), True),
